@@ -46,7 +46,23 @@ pub uninterp spec fn boundary(buf: &str, i: int) -> bool;                 // str
 pub uninterp spec fn sp_substr(buf: &str, a: int, b: int) -> &str;       // &buf[a..b]
 pub uninterp spec fn sp_len(buf: &str) -> int;                            // buf.len() in bytes
 pub open spec fn slice_ok(buf: &str, a: int, b: int) -> bool { 0 <= a <= b <= sp_len(buf) && boundary(buf, a) && boundary(buf, b) }
-pub uninterp spec fn sp_keyword(word: &str) -> Option<TokenType<'static>>;  // KEYWORDS lookup of the lower-cased word
+/// the KEYWORDS table: what is stored under exactly this key (all keys are lower-case)
+pub uninterp spec fn sp_table(key: &str) -> Option<TokenType<'static>>;
+/// str::to_lowercase
+pub uninterp spec fn sp_lower(word: &str) -> &str;
+/// keyword recognition: the table entry of the LOWER-CASED word
+pub open spec fn sp_keyword(word: &str) -> Option<TokenType<'static>> { sp_table(sp_lower(word)) }
+/// `KEYWORDS` (lazy_static HashMap<&'static str, TokenType<'static>>)
+#[verifier::external_body] pub struct KeywordTable { _p: u8 }
+#[verifier::external_body] pub fn keywords() -> (r: &'static KeywordTable) { unimplemented!() }
+impl KeywordTable {
+    /// HashMap::get(key).copied(); no entry maps to TokenType::Newline (by inspection of the table)
+    #[verifier::external_body]
+    pub fn get_copied(&self, key: &str) -> (r: Option<TokenType<'static>>) ensures r == sp_table(key), !(r matches Some(t) && t is Newline) { unimplemented!() }
+}
+/// `word.to_lowercase()` followed by `.as_str()`
+#[verifier::external_body] pub fn lowercase_of(word: &str) -> (r: String) { unimplemented!() }
+#[verifier::external_body] pub fn lowered<'x>(word: &'x str) -> (r: &'x str) ensures r == sp_lower(word) { unimplemented!() }
 pub uninterp spec fn sp_starts_with(hay: &str, needle: &str) -> bool;
 
 /// `Lexer<'a>`: `char_indices` is represented by the ghost byte offset it stands at
@@ -86,8 +102,6 @@ impl<'a> Lexer<'a> {
         ensures self.cursor@ <= r <= sp_len(self.buf), boundary(self.buf, r as int)
     { unimplemented!() }
 }
-#[verifier::external_body]
-pub fn match_keyword<'a>(word: &'a str) -> (r: Option<TokenType<'a>>) ensures r == sp_keyword(word), no_newline_keyword(word) { unimplemented!() }
 /// no KEYWORDS entry maps to TokenType::Newline (by inspection of the table)
 pub open spec fn no_newline_keyword(word: &str) -> bool { !(sp_keyword(word) matches Some(t) && t is Newline) }
 #[verifier::external_body]
